@@ -20,7 +20,13 @@ for p in sorted((root / 'design_appendix/fixes').glob('*.patch')):
         if hunk:
             old = '\n'.join(l[1:] for l in hunk if l[:1] in (' ', '+')) + '\n'
             new = '\n'.join(l[1:] for l in hunk if l[:1] in (' ', '-')) + '\n'
-            edits.append({'file': file, 'old': old, 'new': new})
+            src = (Path('/repo') / file).read_text()
+            ol, nl = old.splitlines(True), new.splitlines(True)
+            while src.count(''.join(ol)) != 1 and ol and nl and ol[-1] == nl[-1]:
+                ol.pop(); nl.pop()
+            while src.count(''.join(ol)) != 1 and ol and nl and ol[0] == nl[0]:
+                ol.pop(0); nl.pop(0)
+            edits.append({'file': file, 'old': ''.join(ol), 'new': ''.join(nl)})
     for l in text:
         if l.startswith('+++ b/'):
             file = l[6:]
